@@ -5,6 +5,7 @@ from ordered_set import OrderedSet
 from xdsl.builder import Builder
 from xdsl.context import Context
 from xdsl.dialects import builtin, x86, x86_func
+from xdsl.dialects.builtin import IntAttr
 from xdsl.dialects.x86.registers import (
     R12,
     R13,
@@ -14,6 +15,7 @@ from xdsl.dialects.x86.registers import (
     RBX,
     RSP,
     GeneralRegisterType,
+    Reg64Type,
 )
 from xdsl.passes import ModulePass
 from xdsl.rewriter import InsertPoint
@@ -25,18 +27,28 @@ Registers that should be the same after the called function returns to the calle
 """
 
 
+_CALLEE_SAVED_INDICES = frozenset(
+    reg.index.data
+    for reg in X86_CALLEE_SAVED_REGISTERS
+    if isinstance(reg.index, IntAttr)
+)
+
+
 @dataclass(frozen=True)
 class X86PrologueEpilogueInsertion(ModulePass):
     name = "x86-prologue-epilogue-insertion"
 
     def _process_function(self, func: x86_func.FuncOp) -> None:
+        # Narrower aliases (ebx, r13d, ...) clobber the same physical register, so
+        # registers are compared by index and the full 64-bit register is saved.
         used_callee_preserved_registers = OrderedSet(
-            res.type
+            Reg64Type.from_index(res.type.index.data)
             for op in func.walk()
             if not isinstance(op, x86.GetRegisterOp)
             for res in op.results
             if isinstance(res.type, GeneralRegisterType)
-            if res.type in X86_CALLEE_SAVED_REGISTERS
+            if isinstance(res.type.index, IntAttr)
+            if res.type.index.data in _CALLEE_SAVED_INDICES
         )
 
         if not used_callee_preserved_registers:
